@@ -120,7 +120,14 @@ def _run_case(case, ctx):
         pos = algo != "parafac"
         user_init = (None, [(np.abs(rs.standard_normal((s_, rank))) + 0.1 if pos else rs.standard_normal((s_, rank))) for s_ in shp_])
         which = which + "+fixed" + ("-last" if (len(shp_) - 1) in fm else "")
-    if algo in ("parafac", "tucker") and data["kind"] == "tensor" and unit == 1.0 and user_init is None and opts.get("init", "svd") == "svd" and not opts.get("sparsity") and rs.rand() < 0.12:
+    if data["kind"] == "tensor" and user_init is None and ((algo == "tucker") or (algo == "parafac" and which in ("plain", "normalize"))) and rs.rand() < 0.12:
+        # complex data: the shortcut ||X||^2 - ||core||^2 (Tucker) and the Gram-based CP error rely on conjugate transposes everywhere
+        Xc_ = data["X"].astype(np.complex128)
+        Xc_ = Xc_ + 1j * rs.standard_normal(Xc_.shape) * (float(np.max(np.abs(Xc_))) or 1.0)
+        data = dict(data, X=Xc_, cls=data["cls"] + "+complex")
+        which = which + "+complex"
+        ctx.count("complex_data")
+    elif algo in ("parafac", "tucker") and data["kind"] == "tensor" and unit == 1.0 and user_init is None and opts.get("init", "svd") == "svd" and not opts.get("sparsity") and rs.rand() < 0.12:
         # counts / pixel values stored in a narrow integer dtype: the reported error is still the error relative to the norm of the data
         idt = gen.choice(rs, ["uint8", "int16", "uint16"])
         Xi = np.abs(data["X"])
@@ -142,6 +149,17 @@ def _run_case(case, ctx):
     for k in list(range(1, K + 1)):
         r = decomp.run(algo, data, rank, k, dict(opts), seed, tol=tiny, init=None if user_init is None else (None, [f.copy() for f in user_init[1]]))
         runs[k] = (decomp.snapshot(r["decomp"]), r["errors"])
+    if algo == "tucker" and which.endswith("+complex"):
+        # complex HOOI with the einsum tensor algebra selected: one more run, judged like the others
+        from tensorly import tenalg as _ta
+        prev_ = _ta.get_backend()
+        _ta.set_backend("einsum")
+        try:
+            r = decomp.run(algo, data, rank, K + 1, dict(opts, _plain_tenalg=True), seed, tol=tiny)
+        finally:
+            _ta.set_backend(prev_)
+        ctx.count("complex_hooi_under_einsum_tenalg")
+        runs[K + 1] = (decomp.snapshot(r["decomp"]), r["errors"])
     nonzero = False
     # (1) last reported value of run k == true error of the decomposition returned by run k
     for k, (dec, errs) in runs.items():
